@@ -376,8 +376,16 @@ func (c *client) findClients(ctx context.Context, batch []hrpc.Call, res []hrpc.
 	rpcByClient := make(map[hrpc.RegionClient][]hrpc.Call)
 	ok := true
 	for i, rpc := range batch {
-		rc, err := c.getRegionAndClientForRPC(ctx, rpc)
+		// stop looking when the context of the batch or of the rpc is done
+		lookupCtx, cancel := context.WithCancel(ctx)
+		stop := context.AfterFunc(rpc.Context(), cancel)
+		rc, err := c.getRegionAndClientForRPC(lookupCtx, rpc)
+		stop()
+		cancel()
 		if err != nil {
+			if rpcErr := rpc.Context().Err(); rpcErr != nil && ctx.Err() == nil {
+				err = rpcErr
+			}
 			res[i].Error = err
 			ok = false
 			continue // see if any more RPCs are missing regions
@@ -422,6 +430,24 @@ loop:
 				default:
 					unretryableError = true
 				}
+			}
+
+		case <-rpc.Context().Done():
+			// The RPC's own context is done, don't wait for its result
+			// any longer and don't retry it. Like below, if the result
+			// is not ready it will be the context error.
+			select {
+			case res := <-rpc.ResultChan():
+				results[rpcToRes[rpc]] = res
+				if res.Error != nil {
+					c.handleResultError(res.Error, rpc.Region(), rc)
+				}
+			default:
+				results[rpcToRes[rpc]].Error = rpc.Context().Err()
+			}
+			if results[rpcToRes[rpc]].Error != nil {
+				ok = false
+				unretryableError = true
 			}
 
 		case <-ctx.Done():
